@@ -24,7 +24,7 @@ const memberScript = `#!/bin/bash
 # env: PCV_LOG PCV_ROLE PCV_DEPTH PCV_KIDS PCV_IGNORE PCV_FLAG PCV_DETACH_IO
 role="${PCV_ROLE:-parent}"
 log="$PCV_LOG"
-for s in 1 2 3 10 12 15; do
+for s in 1 2 3 10 12 14 15 30 31; do
   if [ -n "$PCV_IGNORE" ] && [ "$s" = 15 ]; then
     trap "echo \"$role GOT $s \$(date +%s%N)\" >> $log" $s
   else
@@ -62,7 +62,9 @@ type rpCase struct {
 	Trigger    string `json:"trigger"` // "stop" | "shutdown" | "SIGTERM" | "SIGINT" | "SIGHUP"
 	DelayMs    int    `json:"delay_ms"`
 	Ordered    bool   `json:"ordered"`
-	Other      bool   `json:"other"` // a second, plain process in the project
+	Other      bool   `json:"other"`            // a second, plain process in the project
+	Second     string `json:"second,omitempty"` // binary mode: a second OS signal sent SecondMs after the first
+	SecondMs   int    `json:"second_ms,omitempty"`
 }
 
 func effSignal(s int) int {
@@ -73,10 +75,10 @@ func effSignal(s int) int {
 }
 
 func genRpCase(rng *rand.Rand, i int) rpCase {
-	sigs := []int{1, 2, 3, 10, 12, 15, 0, -1, 32, 77}
+	sigs := []int{1, 2, 3, 10, 12, 15, 0, -1, 32, 77, 31, 30, 14}
 	c := rpCase{Signal: sigs[i%len(sigs)], ParentOnly: (i/len(sigs))%2 == 1}
 	c.Timeout = []int{0, 1, 2}[rng.Intn(3)]
-	c.Command = []string{"", "", "ok", "fail", "hang"}[rng.Intn(5)]
+	c.Command = []string{"", "", "ok", "fail", "hang", "", "nostart"}[rng.Intn(7)]
 	c.Depth = rng.Intn(3)
 	c.Kids = 1 + rng.Intn(2)
 	c.DetachIO = rng.Intn(2) == 0
@@ -111,6 +113,12 @@ func genRpCase(rng *rand.Rand, i int) rpCase {
 	c.DelayMs = rng.Intn(400)
 	c.Ordered = rng.Intn(3) == 0
 	c.Other = rng.Intn(2) == 0
+	if strings.HasPrefix(c.Trigger, "SIG") && rng.Intn(2) == 0 {
+		// a second signal (double Ctrl+C, init sending TERM then HUP) while
+		// the first shutdown may still be in progress
+		c.Second = []string{"SIGTERM", "SIGINT", "SIGHUP"}[rng.Intn(3)]
+		c.SecondMs = 50 + rng.Intn(600)
+	}
 	return c
 }
 
@@ -143,6 +151,18 @@ func killMarked(marker string) {
 	for _, pid := range procsWithMarker(marker) {
 		_ = syscall.Kill(pid, syscall.SIGKILL)
 	}
+}
+
+// pidAlive: the process exists and is not a zombie.
+func pidAlive(pid string) bool {
+	b, err := os.ReadFile("/proc/" + pid + "/stat")
+	if err != nil {
+		return false
+	}
+	if i := strings.LastIndexByte(string(b), ')'); i >= 0 && i+2 < len(b) {
+		return b[i+2] != 'Z' && b[i+2] != 'X'
+	}
+	return true
 }
 
 type logLine struct {
@@ -240,6 +260,10 @@ func runRealProc(c fw.Case) fw.Result {
 		fmt.Fprintf(&y, "      command: %s\n", yq(fmt.Sprintf("(env; echo PWD_IS=$(pwd)) > %s; exit 1", cmdOut)))
 	case "hang":
 		fmt.Fprintf(&y, "      command: %s\n", yq(fmt.Sprintf("(env; echo PWD_IS=$(pwd)) > %s; sleep 30", cmdOut)))
+	case "nostart":
+		// the working directory is removed once the tree runs: the shutdown
+		// command cannot even be started
+		fmt.Fprintf(&y, "      command: %s\n", yq(fmt.Sprintf("(env; echo PWD_IS=$(pwd)) > %s; touch %s", cmdOut, flag)))
 	}
 	if sp.Other {
 		fmt.Fprintf(&y, "  plain:\n    command: 'sleep 300'\n    environment:\n      - 'PCV_MARK=%s'\n", marker)
@@ -291,11 +315,21 @@ func runRealProc(c fw.Case) fw.Result {
 			return r
 		}
 		time.Sleep(time.Duration(sp.DelayMs) * time.Millisecond)
+		if sp.Command == "nostart" {
+			_ = os.RemoveAll(workDir)
+		}
 		sig := map[string]syscall.Signal{"SIGTERM": syscall.SIGTERM, "SIGINT": syscall.SIGINT, "SIGHUP": syscall.SIGHUP}[sp.Trigger]
 		stopRequested = time.Now()
 		_ = cmd.Process.Signal(sig)
 		done := make(chan error, 1)
 		go func() { done <- cmd.Wait() }()
+		if sp.Second != "" {
+			sigs := map[string]syscall.Signal{"SIGTERM": syscall.SIGTERM, "SIGINT": syscall.SIGINT, "SIGHUP": syscall.SIGHUP}
+			go func() {
+				time.Sleep(time.Duration(sp.SecondMs) * time.Millisecond)
+				_ = cmd.Process.Signal(sigs[sp.Second])
+			}()
+		}
 		select {
 		case err := <-done:
 			binExit = 0
@@ -326,6 +360,9 @@ func runRealProc(c fw.Case) fw.Result {
 			return r
 		}
 		time.Sleep(time.Duration(sp.DelayMs) * time.Millisecond)
+		if sp.Command == "nostart" {
+			_ = os.RemoveAll(workDir)
+		}
 		stopRequested = time.Now()
 		done := make(chan struct{})
 		go func() {
@@ -355,19 +392,39 @@ func runRealProc(c fw.Case) fw.Result {
 	}
 	// --- oracles
 	// let the signalled members finish writing their trap lines (bounded)
-	settle := time.Now().Add(3 * time.Second)
-	for time.Now().Before(settle) {
-		if !sp.ParentOnly && len(procsWithMarkerExcept(marker, "plain")) == 0 {
-			break
+	// positive evidence only: every member that is expected to be signalled has
+	// either logged a signal or is gone; the bound is a watchdog, not a verdict
+	// on speed (a loaded machine delays bash traps by hundreds of ms)
+	stopReturned := time.Now()
+	wantSig := strconv.Itoa(effSignal(sp.Signal))
+	settle := time.Now().Add(10 * time.Second)
+	for {
+		pids, got := map[string]string{}, map[string]bool{}
+		for _, l := range readTrapLog(logf) {
+			switch l.what {
+			case "START":
+				pids[l.role] = l.arg
+			case "GOT":
+				got[l.role] = true
+			}
 		}
-		if sp.ParentOnly && time.Since(stopRequested) > 300*time.Millisecond {
-			break
+		pending := false
+		for role, pid := range pids {
+			if got[role] || sp.Command != "" {
+				continue
+			}
+			expect := role == "parent" || (!sp.ParentOnly && wantSig != "2" && wantSig != "3")
+			if expect && pidAlive(pid) {
+				pending = true
+			}
 		}
-		// members that can only die by SIGKILL are handled below
-		if (sp.KidIgnore || sp.Ignore) && time.Since(stopRequested) > 500*time.Millisecond {
+		if !pending || time.Now().After(settle) {
 			break
 		}
 		time.Sleep(10 * time.Millisecond)
+	}
+	if sp.ParentOnly {
+		time.Sleep(300 * time.Millisecond) // children signalled by mistake get a moment to log it
 	}
 	lines := readTrapLog(logf)
 	want := strconv.Itoa(effSignal(sp.Signal))
@@ -427,13 +484,13 @@ func runRealProc(c fw.Case) fw.Result {
 	if sp.Timeout > 0 && sp.Ignore && usesSignal && effSignal(sp.Signal) == 15 {
 		// lower bound: the parent (ignoring SIGTERM) must have lived at least timeout seconds after the request
 		// (its death is observed through the return of the stop call)
-		lived := time.Since(stopRequested)
+		lived := stopReturned.Sub(stopRequested)
 		if lived < time.Duration(sp.Timeout)*time.Second-50*time.Millisecond {
 			r.Add("C06", "sigkill-too-early", "the stop returned %.2f s after the request although the parent ignores SIGTERM and timeout_seconds is %d", lived.Seconds(), sp.Timeout)
 		}
 	}
 	// shutdown command: environment and working directory
-	if sp.Command != "" {
+	if sp.Command != "" && sp.Command != "nostart" {
 		b, err := os.ReadFile(cmdOut)
 		r.Count("shutdown_commands_checked", 1)
 		if err != nil {
